@@ -8,7 +8,7 @@ exit 0: property held on everything explored (KNOWN-FINDING lines may be printed
 exit 1: `VIOLATION property=<id> replay=<path>` printed
 exit 2: infrastructure failure (crate does not build, Lean toolchain missing, …)
 """
-import fcntl, hashlib, json, os, re, shutil, subprocess, sys, time
+import fcntl, fnmatch, hashlib, json, os, re, shutil, subprocess, sys, time
 from concurrent.futures import ThreadPoolExecutor
 
 ROOT = os.path.dirname(os.path.dirname(os.path.abspath(__file__)))
@@ -187,7 +187,17 @@ def check(prop, tier, seed):
         forb = forbidden_scan()
         proof_ok = info["theorems_ok"] and info["gen_ok"] and not bad_ax and not forb and count > 0
         # scenarios
-        gen = spec["gen"](tier, seed)
+        class Ctx:
+            def harness(self, lines, feat):
+                sf = os.path.join(workdir, "pre.txt")
+                with open(sf, "w") as f:
+                    f.write("\n".join(lines) + "\n")
+                with open(sf) as fin:
+                    p = subprocess.run([harness_bin(feat)], stdin=fin, stdout=subprocess.PIPE, stderr=subprocess.PIPE, text=True)
+                if p.returncode != 0:
+                    raise Infra("harness failed in pre-pass: " + p.stderr[-2000:])
+                return p.stdout
+        gen = spec["gen"](tier, seed, Ctx()) if spec.get("ctx") else spec["gen"](tier, seed)
         known = [k for k in load_known() if k["property"] == prop and k.get("status") == "open"]
         all_lines = {}
         outputs = []
@@ -229,6 +239,11 @@ def check(prop, tier, seed):
                 xerr.append((feat, o))
         if xerr:
             raise Infra("model driver rejected scenarios: " + "; ".join(x[1] for x in xerr[:5]))
+        if spec.get("post"):
+            extra_fails, nobs = getattr(scenarios, spec["post"])(outputs, all_lines)
+            fails += extra_fails
+            obs_count += nobs
+            oks += nobs - len(extra_fails)
         # match failures against known findings
         def field(s, k):
             m = re.search(rf"\b{k}=(\S+)", s)
@@ -239,7 +254,8 @@ def check(prop, tier, seed):
             site, reason = field(detail, "site"), field(detail, "reason")
             hit = None
             for k in known:
-                if k["site"] == site and k["reason"] == reason:
+                reasons = k.get("reasons") or [k["reason"]]
+                if fnmatch.fnmatchcase(site, k["site"]) and reason in reasons:
                     hit = k
                     break
             if hit is not None:
